@@ -137,6 +137,7 @@ pub fn clauses() -> Vec<Clause> {
         );
         v.push(Clause::generated("C05", format!("C05/{name}/long/Q"), "long histories: N in 1..8, 300..1200 values (tiled grammar stream); same batch definition at every step.", 40, 1000, def_strategy_long(vd.clone()), def_check_q(format!("C05/{name}/long/Q"), vd.clone())).with_shard(8));
         v.push(Clause::generated("C05", format!("C05/{name}/ultra/Q"), ULTRA_RULE, 2, 40, def_strategy_ultra(vd.clone()), def_check_ultra_q(format!("C05/{name}/ultra/Q"), vd.clone())).with_shard(2));
+        v.push(Clause::generated("C05", format!("C05/{name}/chained/Q"), CHAINED_RULE, 500, 12_000, def_strategy_chained(vd.clone()), def_check_chained_q(format!("C05/{name}/chained/Q"), vd.clone())).with_shard(100));
         v.push(Clause::generated("C05", format!("C05/{name}/negation/Q"), "same generator; x and -x through two instances: Rsi(-x) = 100 - Rsi(x), MyRSI(-x) = -MyRSI(x) at every step whose window is not flat. Non-trivial: as above and at least one non-flat step compared.", 1200, 30_000, rsi_strategy(vd.mk), negation_check(name)).with_shard(150));
     }
     v
